@@ -6,7 +6,8 @@ package v1
 
 // ---- no request can crash the server (property C18): zero-annotation no-panic obligations
 // (nil dereference, index, slice, type assertion) of the v1 handlers ----
-// Assumed (listed): the node's server list is not empty (it always contains the node itself).
+// Assumed (listed): the node's server list is not empty (it always contains the node itself); the
+// shard ids of the stored collection the middleware put into the context are pairwise distinct.
 //@ immutable SemaDBHandlers.clusterNode set once in SetupV1Handlers
 //@ func (*SemaDBHandlers).HandleListCollections
 //@   property C18
@@ -17,4 +18,6 @@ package v1
 //@ func (*SemaDBHandlers).HandleGetCollection
 //@   property C18
 //@   safety nil -overflow -typeassert
+//@   requires len(sdbh.clusterNode.Servers) >= 1
+//@   after Value assume forall(a, 0, len(dyn(result, models.Collection).ShardIds), forall(b, 0, len(dyn(result, models.Collection).ShardIds), a != b ==> dyn(result, models.Collection).ShardIds[a] != dyn(result, models.Collection).ShardIds[b]))
 //@   loop 1 invariant rangeindex >= -1 && rangeindex < len(shards) && len(shardItems) == len(shards)
